@@ -74,7 +74,7 @@ def run(ctx):
         for front, V in (('v2', 'v2one'), ('legacy', 'legacyone')):
             cfgp = pc.mc_cfg('pit-B10-' + front, front, 2, 1, 'small', V, R='R_two', E='E_all', invs=[], props=[])
             pc.stage_b(ctx, front, cfgp, 'envelopes 2 entries', devs=c03.DEVS[front], report_devs=False, max_paths=ctx.pick(600, 12000))
-        cfgp = fc.mc_cfg('fib-B10', 'v2', 'small', 'reply', 'v2two', 2, 1, 1, reps=3, E='E_all', invs=[], props=[])
+        cfgp = fc.mc_cfg('fib-B10', 'v2', 'small', 'reply', 'v2two', 2, ctx.pick(0, 1), 1, reps=ctx.pick(2, 3), E=ctx.pick('E_two', 'E_all'), invs=[], props=[])
         fc.stage_b(ctx, 'v2', cfgp, 'tokens 2 Interests 3 replies', max_paths=ctx.pick(600, 12000))
     if 'C' in ctx.stages:
         junk = frag_junk_factory()
